@@ -572,6 +572,23 @@ func roundsZeroReturns(fd *ast.FuncDecl) bool {
 
 // exprPoly normalises an integer expression over local names: identifiers resolve through single-definition locals,
 // spec.X becomes X, len(e) becomes an atom.
+// polyArg: the argument a parameter stands for while a helper is read at its call site. A struct value written out at
+// the call (T{F: v}) stands for the parameter only where one of its fields is selected (exprPoly, selector case).
+func polyArg(o types.Object) (ast.Expr, bool) {
+	a, ok := polyArgs[o]
+	if !ok {
+		return nil, false
+	}
+	lit := ast.Unparen(a)
+	if u, isU := lit.(*ast.UnaryExpr); isU && u.Op == token.AND {
+		lit = ast.Unparen(u.X)
+	}
+	if _, isLit := lit.(*ast.CompositeLit); isLit {
+		return nil, false
+	}
+	return a, true
+}
+
 // polySelfObj / polySelfText: the variable (or field path) being assigned by the statement whose right-hand side is read.
 // polyAbsorbed (when set) collects the positions of the assignments whose value was read into a later assignment of
 // the same variable (x = f(x) resolved through the x = … that reaches it): the later formula then spells them out.
@@ -623,9 +640,38 @@ func exprPoly(info *types.Info, e ast.Expr, defs map[types.Object]localDef, stop
 			}
 		}
 		// a parameter standing for the argument of the call being read
-		if a, ok := polyArgs[info.Uses[id]]; ok && depth < 40 {
+		if a, ok := polyArg(info.Uses[id]); ok && depth < 40 {
 			if pp, ok := exprPoly(info, a, defs, stop, depth+8); ok {
 				return pp, true
+			}
+		}
+	}
+	if x, isSel := e.(*ast.SelectorExpr); isSel && !isSpecType(info.TypeOf(x.X)) {
+		// a field of a struct value that is written out where it is handed over (a parameter standing for the
+		// argument T{F: v}, or a local defined as one): the field's value
+		if id, ok := ast.Unparen(x.X).(*ast.Ident); ok && depth < 40 {
+			var src ast.Expr
+			if a, ok := polyArgs[info.Uses[id]]; ok && !partlyWritten[info.Uses[id]] { // (the literal itself)
+				src = a
+			} else if d, ok := defs[info.Uses[id]]; ok && d.pos == 0 && d.n == 1 && !partlyWritten[info.Uses[id]] {
+				src = d.rhs
+			}
+			if src != nil {
+				lit := ast.Unparen(src)
+				if u, ok := lit.(*ast.UnaryExpr); ok && u.Op == token.AND {
+					lit = ast.Unparen(u.X)
+				}
+				if cl, ok := lit.(*ast.CompositeLit); ok {
+					for _, el := range cl.Elts {
+						if kv, ok := el.(*ast.KeyValueExpr); ok {
+							if k, ok := kv.Key.(*ast.Ident); ok && k.Name == x.Sel.Name {
+								if p, ok := exprPoly(info, kv.Value, defs, stop, depth+8); ok {
+									return p, true
+								}
+							}
+						}
+					}
+				}
 			}
 		}
 	}
@@ -664,7 +710,7 @@ func exprPoly(info *types.Info, e ast.Expr, defs map[types.Object]localDef, stop
 		if isSelf {
 			return polyAtom("§self"), true
 		}
-		if a, ok := polyArgs[info.Uses[x]]; ok && depth < 40 {
+		if a, ok := polyArg(info.Uses[x]); ok && depth < 40 {
 			if pp, ok := exprPoly(info, a, defs, stop, depth+8); ok {
 				return pp, true
 			}
@@ -861,49 +907,70 @@ func constantInt(tv types.TypeAndValue) (int64, bool) {
 func ruleCommitteePartition(c *Ctx) {
 	pk, fd := c.P.mustFunc("eth2/beacon/common", "NewShufflingEpoch")
 	info := pk.TypesInfo
-	defs := singleDefs(info, fd.Body)
+	// the committee slicing: a slice expression over what resolves (through locals and helper parameters) to the
+	// Shuffling field, here or in a helper of the package
+	top := newInlEnv(info, fd.Body, nil, nil, nil, nil)
 	var sl *ast.SliceExpr
-	ast.Inspect(fd.Body, func(n ast.Node) bool {
-		if s, ok := n.(*ast.SliceExpr); ok && strings.HasSuffix(types.ExprString(s.X), ".Shuffling") {
-			sl = s
+	var slEnv *inlEnv
+	walkInlinedNodes(c.P, pk, top, func(n ast.Node, fr *inlEnv) {
+		s, ok := n.(*ast.SliceExpr)
+		if !ok || s.Low == nil || s.High == nil {
+			return
 		}
-		return true
+		x, xfr := fr.resolve(s.X)
+		if sel, ok := x.(*ast.SelectorExpr); ok {
+			if sn := xfr.info.Selections[sel]; sn != nil && sn.Kind() == types.FieldVal && sn.Obj().Name() == "Shuffling" {
+				sl, slEnv = s, fr
+			}
+		}
 	})
-	if sl == nil || sl.Low == nil || sl.High == nil {
+	if sl == nil {
 		c.unm("NewShufflingEpoch.slices", fd.Pos(), "committee slicing of Shuffling not found")
 	} else {
 		// loop variables stay atoms
 		loopVars := map[string]bool{}
 		var loops []*ast.ForStmt
-		parents := parentMap(fd.Body)
-		for p := parents[ast.Node(sl)]; p != nil; p = parents[p] {
+		for p := slEnv.parents[ast.Node(sl)]; p != nil; p = slEnv.parents[p] {
 			if f, ok := p.(*ast.ForStmt); ok {
-				loops = append(loops, f)
-				if as, ok := f.Init.(*ast.AssignStmt); ok {
-					for _, l := range as.Lhs {
-						loopVars[l.(*ast.Ident).Name] = true
+				if as, ok := f.Init.(*ast.AssignStmt); ok && len(as.Lhs) == 1 && len(as.Rhs) == 1 {
+					if id, ok := as.Lhs[0].(*ast.Ident); ok {
+						if _, isCmp := ast.Unparen(f.Cond).(*ast.BinaryExpr); isCmp {
+							loops = append(loops, f)
+							loopVars[id.Name] = true
+						}
 					}
 				}
 			}
 		}
-		// index variable: the local both bounds share; find it as the ident multiplied with validatorCount in Low
-		low, ok1 := exprPoly(info, sl.Low, defs, loopVars, 0)
-		high, ok2 := exprPoly(info, sl.High, defs, loopVars, 0)
+		low, ok1 := slEnv.polyStop(sl.Low, loopVars)
+		high, ok2 := slEnv.polyStop(sl.High, loopVars)
 		if !ok1 || !ok2 || len(loops) != 2 {
 			c.unm("NewShufflingEpoch.slices", sl.Pos(), "slice bounds not normalisable (or not inside the slot x index loops)")
 		} else {
 			inner, outer := loops[0], loops[1]
 			iv := inner.Init.(*ast.AssignStmt).Lhs[0].(*ast.Ident).Name
 			ov := outer.Init.(*ast.AssignStmt).Lhs[0].(*ast.Ident).Name
-			// expected forms
-			n := polyAtom("len(shep.Shuffling)")
-			perSlot, _ := exprPoly(info, inner.Cond.(*ast.BinaryExpr).Y, defs, loopVars, 0)
-			slots, _ := exprPoly(info, outer.Cond.(*ast.BinaryExpr).Y, defs, loopVars, 0)
+			// expected forms: n the length of the sliced value
+			n, _ := slEnv.polyStop(&ast.CallExpr{Fun: ast.NewIdent("len"), Args: []ast.Expr{sl.X}}, loopVars)
+			// (either operand order of the loop test: the bound is the side that is not the counter)
+			bound := func(f *ast.ForStmt, v string) (Poly, token.Token) {
+				be := ast.Unparen(f.Cond).(*ast.BinaryExpr)
+				if id, ok := ast.Unparen(be.X).(*ast.Ident); ok && id.Name == v {
+					p, _ := slEnv.polyStop(be.Y, loopVars)
+					return p, be.Op
+				}
+				p, _ := slEnv.polyStop(be.X, loopVars)
+				return p, flipOp[be.Op]
+			}
+			perSlot, iop := bound(inner, iv)
+			slots, oop := bound(outer, ov)
 			k := polyAdd(polyMul(polyAtom(ov), perSlot), polyAtom(iv), 1)
 			count := polyMul(perSlot, slots)
 			wantLow := polyDiv(polyMul(n, k), count)
 			wantHigh := polyDiv(polyMul(n, polyAdd(k, polyConst(1), 1)), count)
 			switch {
+			case perSlot == nil || slots == nil || n == nil:
+				c.unm("NewShufflingEpoch.slices", sl.Pos(), "loop bounds not normalisable")
 			case !polyEq(low, wantLow):
 				c.bad("NewShufflingEpoch.slices", sl.Pos(), "committee start is %s, want n*k/count = %s", low.String(), wantLow.String())
 			case !polyEq(high, wantHigh):
@@ -912,16 +979,24 @@ func ruleCommitteePartition(c *Ctx) {
 				c.bad("NewShufflingEpoch.slices", outer.Pos(), "outer loop runs to %s, want SLOTS_PER_EPOCH", slots.String())
 			default:
 				// loops start at 0 and step by 1 with <
-				okLoops := true
+				okLoops := iop == token.LSS && oop == token.LSS
 				for _, l := range loops {
 					as := l.Init.(*ast.AssignStmt)
-					if p, ok := exprPoly(info, as.Rhs[0], defs, nil, 0); !ok || p.String() != "0" {
+					if p, ok := exprPoly(info, as.Rhs[0], nil, nil, 0); !ok || p.String() != "0" {
 						okLoops = false
 					}
-					if be := l.Cond.(*ast.BinaryExpr); be.Op != token.LSS {
-						okLoops = false
-					}
-					if inc, ok := l.Post.(*ast.IncDecStmt); !ok || inc.Tok != token.INC {
+					switch post := l.Post.(type) {
+					case *ast.IncDecStmt:
+						if post.Tok != token.INC {
+							okLoops = false
+						}
+					case *ast.AssignStmt:
+						if post.Tok != token.ADD_ASSIGN || len(post.Rhs) != 1 {
+							okLoops = false
+						} else if p, ok := exprPoly(info, post.Rhs[0], nil, nil, 0); !ok || p.String() != "1" {
+							okLoops = false
+						}
+					default:
 						okLoops = false
 					}
 				}
@@ -932,25 +1007,66 @@ func ruleCommitteePartition(c *Ctx) {
 				}
 			}
 			// perSlot comes from CommitteeCount(spec, n)
-			if !strings.HasPrefix(perSlot.String(), "CommitteeCount(") {
-				c.bad("NewShufflingEpoch.count", inner.Pos(), "committees per slot is %s, want CommitteeCount(spec, active count)", perSlot.String())
+			if perSlot == nil || !strings.HasPrefix(perSlot.String(), "CommitteeCount(") {
+				c.bad("NewShufflingEpoch.count", inner.Pos(), "committees per slot is %v, want CommitteeCount(spec, active count)", perSlot)
 			} else {
 				c.ok("NewShufflingEpoch.count", inner.Pos(), "%s", perSlot.String())
 			}
-			// each committee is appended to its slot's list
+			// each committee is appended to its slot's list: the slice (directly or through a local) is an argument of an
+			// append whose destination is the outer counter's element of something, or a local that is stored there
 			appended := false
+			ovObj := slEnv.info.ObjectOf(outer.Init.(*ast.AssignStmt).Lhs[0].(*ast.Ident))
+			indexedByOuter := func(e ast.Expr) bool {
+				ix, ok := ast.Unparen(e).(*ast.IndexExpr)
+				if !ok {
+					return false
+				}
+				id, ok := ast.Unparen(stripConv(slEnv.info, ix.Index)).(*ast.Ident)
+				return ok && slEnv.info.ObjectOf(id) == ovObj
+			}
 			ast.Inspect(inner.Body, func(m ast.Node) bool {
-				if cl, ok := m.(*ast.CallExpr); ok {
-					if id, ok := cl.Fun.(*ast.Ident); ok && id.Name == "append" && len(cl.Args) == 2 && strings.Contains(types.ExprString(cl.Args[0]), "Committees["+ov+"]") {
-						appended = true
+				as, ok := m.(*ast.AssignStmt)
+				if !ok || len(as.Lhs) != 1 || len(as.Rhs) != 1 {
+					return true
+				}
+				cl, ok := ast.Unparen(as.Rhs[0]).(*ast.CallExpr)
+				if !ok || len(cl.Args) != 2 {
+					return true
+				}
+				if id, ok := cl.Fun.(*ast.Ident); !ok || id.Name != "append" {
+					return true
+				}
+				// the appended value is the slice
+				v := ast.Unparen(cl.Args[1])
+				if id, ok := v.(*ast.Ident); ok {
+					if d, ok := slEnv.defs[slEnv.info.Uses[id]]; ok && d.pos == 0 {
+						v = ast.Unparen(d.rhs)
 					}
+				}
+				if v != ast.Expr(sl) {
+					return true
+				}
+				if indexedByOuter(as.Lhs[0]) {
+					appended = true
+					return true
+				}
+				if dst, ok := ast.Unparen(as.Lhs[0]).(*ast.Ident); ok {
+					dobj := slEnv.info.ObjectOf(dst)
+					ast.Inspect(outer.Body, func(k ast.Node) bool {
+						if st, ok := k.(*ast.AssignStmt); ok && len(st.Lhs) == 1 && len(st.Rhs) == 1 && indexedByOuter(st.Lhs[0]) {
+							if rid, ok := ast.Unparen(st.Rhs[0]).(*ast.Ident); ok && slEnv.info.ObjectOf(rid) == dobj {
+								appended = true
+							}
+						}
+						return true
+					})
 				}
 				return true
 			})
 			if appended {
-				c.ok("NewShufflingEpoch.append", inner.Pos(), "every slice is appended to Committees[slot]")
+				c.ok("NewShufflingEpoch.append", inner.Pos(), "every slice is appended to the list of its slot")
 			} else {
-				c.bad("NewShufflingEpoch.append", inner.Pos(), "committee slices are not appended to Committees[slot]")
+				c.bad("NewShufflingEpoch.append", inner.Pos(), "committee slices are not appended to the list of their slot")
 			}
 		}
 	}
@@ -1071,7 +1187,7 @@ func exprText(info *types.Info, e ast.Expr) string {
 	}
 	switch x := ast.Unparen(e).(type) {
 	case *ast.Ident:
-		if a, ok := polyArgs[info.Uses[x]]; ok {
+		if a, ok := polyArg(info.Uses[x]); ok {
 			if _, self := ast.Unparen(a).(*ast.Ident); !self || info.Uses[ast.Unparen(a).(*ast.Ident)] != info.Uses[x] {
 				return exprText(info, a)
 			}
@@ -1081,9 +1197,14 @@ func exprText(info *types.Info, e ast.Expr) string {
 		}
 		return x.Name
 	case *ast.SelectorExpr:
-		return exprText(info, x.X) + "." + x.Sel.Name
+		// (&a).f and (*p).f are a.f and p.f
+		return strings.TrimLeft(exprText(info, x.X), "&*") + "." + x.Sel.Name
 	case *ast.StarExpr:
-		return "*" + exprText(info, x.X)
+		if in := exprText(info, x.X); strings.HasPrefix(in, "&") {
+			return in[1:]
+		} else {
+			return "*" + in
+		}
 	case *ast.IndexExpr:
 		return exprText(info, x.X) + "[" + exprText(info, x.Index) + "]"
 	case *ast.UnaryExpr:
@@ -1096,10 +1217,45 @@ func exprText(info *types.Info, e ast.Expr) string {
 func polyBitOp(op token.Token, a, b Poly) Poly {
 	sa := strings.NewReplacer("*", "\u00b7", " ", "").Replace(a.String())
 	sb := strings.NewReplacer("*", "\u00b7", " ", "").Replace(b.String())
-	if op != token.AND_NOT && sb < sa {
-		sa, sb = sb, sa
+	if op == token.AND_NOT {
+		return polyAtom("(" + sa + op.String() + sb + ")")
 	}
-	return polyAtom("(" + sa + op.String() + sb + ")")
+	// |, & and ^ are associative and commutative: one flat, sorted list of operands
+	ops := append(bitOperands(sa, op), bitOperands(sb, op)...)
+	sort.Strings(ops)
+	return polyAtom("(" + strings.Join(ops, op.String()) + ")")
+}
+
+// bitOperands: the operands of s when s is itself an atom built by the same operator, else s.
+func bitOperands(s string, op token.Token) []string {
+	if len(s) < 2 || s[0] != '(' || s[len(s)-1] != ')' {
+		return []string{s}
+	}
+	inner := s[1 : len(s)-1]
+	o := op.String()[0]
+	var parts []string
+	depth, start := 0, 0
+	for i := 0; i < len(inner); i++ {
+		switch ch := inner[i]; {
+		case ch == '(' || ch == '[':
+			depth++
+		case ch == ')' || ch == ']':
+			depth--
+			if depth < 0 {
+				return []string{s} // the outer parentheses do not match each other
+			}
+		case depth == 0 && (ch == '|' || ch == '&' || ch == '^'):
+			if ch != o || (ch == '&' && i+1 < len(inner) && inner[i+1] == '^') || (ch == '^' && i > 0 && inner[i-1] == '&') {
+				return []string{s} // another operator at the top: a different kind of atom
+			}
+			parts = append(parts, inner[start:i])
+			start = i + 1
+		}
+	}
+	if len(parts) == 0 {
+		return []string{s}
+	}
+	return append(parts, inner[start:])
 }
 
 // polyInline: the functions whose body is a single `return <expr>` (no variadics), by object; set by the collectors
